@@ -188,6 +188,26 @@ def judge_pair(name, a, tier):
                     break
             if found:
                 break
+    # falsy but valid values (0, 0.0, '') must be stored, read back and serialised like any other
+    if not found and ':' not in attr and attr != 'name' and not a.get('fixed'):
+        py = docs.py_attr(attr)
+        for v in (0, 0.0, ''):
+            if not L.valid_text(docs.render_value(v), False):
+                continue
+            with lib.Capture():
+                try:
+                    e = fresh(name)
+                    setattr(e, py, v)
+                except Exception:
+                    continue
+                got = getattr(e, py)
+                out = serialised_attrs(e)
+            if got is None or got != v or type(got) is not type(v):
+                found.append(('attribute-read-differs-from-stored', '%s=%r reads back %r' % (attr, v, got)))
+                break
+            if attr not in out:
+                found.append(('stored-attribute-not-serialised', '%s=%r' % (attr, v)))
+                break
     # overwrite / remove / failed overwrite keeps the old value
     if good and not found and ':' not in attr:
         py = docs.py_attr(attr)
